@@ -585,6 +585,17 @@ def stepB (s : St α) : Op → Option (St α × String)
     else if how == "nats" then fin (BPoly.ofMap R (triples fun c => R.F.ofNat c.toNat!))
     else if how == "ints" then fin (BPoly.ofMap R (triples fun c => R.F.ofInt (parseInt c)))
     else if how == "zero" then fin (some [])
+    else if how == "embed" then
+      -- `c := src.Copy(); c.EmbedIn(ring, reduce)`; `arg` = "q<k>:<0|1>". Rings 0 and 1 share the underlying
+      -- ring object, ring 2 is a different one (InputIncompatible).
+      match arg.splitOn ":" with
+      | [srcS, redS] =>
+        let ra := bGet s ((srcS.drop 1).toString.toNat!)
+        if (ra.home == 2) != (ring == 2) then some (s, "err InputIncompatible")
+        else
+          let r : BReg α := if redS == "1" then bReduce env { ra with home := ring } else { ra with home := ring }
+          some ({ s with bs := St.setL s.bs dst r }, "ok " ++ showB env r)
+      | _ => none
     else if how == "regs" then
       -- `Polynomial(map[[2]uint]ff.Element{…})` from element registers (the constructor copies them)
       fin (BPoly.ofMap R ((if arg == "-" then [] else arg.splitOn "/").filterMap fun t =>
